@@ -117,7 +117,7 @@ def main(argv):
                         known_hits[f["id"]] = f
                     continue
                 for flavor in ([r["flavor"]] if r.get("flavor") in ("sync", "async") else spec["flavors"]):
-                    st, obs = core._impl_worker((flavor, r["case"], 20))
+                    st, obs = core.impl_isolated((flavor, r["case"], 20))
                     probs = props.run_oracles(prop, r["case"], st, obs, flavor, replay=True)
                     if f in fixed_f and probs:
                         violations.append({"kind": "regression-of-fixed-finding", "finding": f["id"], "flavor": flavor,
@@ -168,7 +168,7 @@ def main(argv):
                         #  many inputs must not turn a two-minute check into an hour)
                         if stats["hang_retries"] < 5:
                             stats["hang_retries"] += 1
-                            ist2, iobs2 = core._impl_worker((flavor, case, 40))
+                            ist2, iobs2 = core.impl_isolated((flavor, case, 40))
                         else:
                             ist2, iobs2 = "hang", None
                         if ist2 == "ok":
@@ -234,7 +234,7 @@ def main(argv):
     elif oracle_fails:
         flavor, case, probs = oracle_fails[0]
         def unexplained_of(c):
-            st_, obs_ = core._impl_worker((flavor, c, 10))
+            st_, obs_ = core.impl_isolated((flavor, c, 10))
             return [p for p in props.run_oracles(prop, c, st_, obs_, flavor)
                     if not any(classify(f, p, c, flavor) for f in open_f)]
         small = shrink.shrink_case(case, lambda c: bool(unexplained_of(c)), budget=120)
@@ -252,7 +252,7 @@ def main(argv):
     elif tie_breaks:
         flavor, case, d = tie_breaks[0]
         def still(c):
-            st, obs = core._impl_worker((flavor, c, 10))
+            st, obs = core.impl_isolated((flavor, c, 10))
             mr = core.run_model_many(flavor, [c])[0]
             if st != "ok" or mr[0] != "ok":
                 return st != "ok" or mr[0] != "ok"
@@ -275,6 +275,7 @@ def main(argv):
     elif broken:
         core.write_replay(prop, "broken", {"property": prop, "broken": broken})
 
+    core.close_pool()        # (the shrinker's single-case runs re-created it)
     wall = time.time() - t0
     n_thm = len(pb["theorems"]) if pb["theorems"] else len(core.property_theorems(prop))
     coverage = {
